@@ -770,3 +770,7 @@ def run(prog, rep, tier, snap):
     rep.rule("R13.10", "the executor's own standard descriptors are left alone", 1)
     rep.call(r13_10, prog, rep)
 READY = True
+
+# texts brought up to date with the rules above (they supersede the first versions at the top of the module)
+LEVEL_TEXT = LEVEL_TEXT + (" Also: tee targets are not O_APPEND; sendfile() is repeated until the count is done; the executor leaves its own "
+                           "descriptors 0/1/2 alone.")
